@@ -24,7 +24,7 @@ def occurrence(kind):
     return ListV([Const(kind), args], "tuple"), args, DictV([])
 
 
-def watch_occurrence(program, kind, filter_value=None, active_value=None, user_kwargs=None):
+def watch_occurrence(program, kind, filter_value=None, active_value=None, user_kwargs=None, heap_over=None):
     """Deliver one occurrence of ``kind`` to trigger_watch.
 
     filter_value: None = the trigger has no expression; otherwise the value its expression evaluates to.
@@ -70,7 +70,7 @@ def watch_occurrence(program, kind, filter_value=None, active_value=None, user_k
             "ident_any_values_changed": lambda i, n, a, k, c, o: [(c, Const(filter_value is None))], "ident_values_changed": lambda i, n, a, k, c, o: [(c, Const(True))],
             "self._call_expression": call_expr, "self.active_expr.eval": rec("$active", Const(active_value)),
             "State.notify_var_get": rec("$varget", lambda a: DictV([(Const("$from"), a[1] if len(a) > 1 else NONE)])),
-            "State.notify_add": lambda i, n, a, k, c, o: [(c, Const(True))], "Event.notify_add": lambda i, n, a, k, c, o: [(c, NONE)],
+            "State.notify_add": rec("$subscribed", Const(True)), "Event.notify_add": lambda i, n, a, k, c, o: [(c, NONE)],
             "Mqtt.notify_add": lambda i, n, a, k, c, o: [(c, NONE)], "Webhook.notify_add": lambda i, n, a, k, c, o: [(c, NONE)],
             "self.active_expr.get_names": lambda i, n, a, k, c, o: [(c, ListV((Const("d.e"),), "set"))],
             "self.state_trig_eval.get_names": lambda i, n, a, k, c, o: [(c, ListV((Const("d.e"),), "set"))],
@@ -91,10 +91,11 @@ def watch_occurrence(program, kind, filter_value=None, active_value=None, user_k
             "self.mqtt_trigger_encoding": NONE, "self.webhook_local_only": Const(True), "self.webhook_methods": NONE}
     for k2 in KINDS:
         heap[f"self.{k2}_trigger_kwargs"] = uk if k2 == kind else DictV(())
+    heap.update(heap_over or {})
     out = run_flow(program, WATCH, pol, args={"self": ObjV("self", "TrigInfo")}, heap=heap)
     recs = []
     for kd, c, desc in exits(out):
         def items(slot):
             return [tuple(x.items) for x in c.heap.get(slot, ListV(())).items]
-        recs.append({"ended": desc, "runs": items("$runs"), "filter_inputs": items("$filter"), "active_inputs": items("$active"), "var_get": items("$varget")})
+        recs.append({"ended": desc, "runs": items("$runs"), "filter_inputs": items("$filter"), "active_inputs": items("$active"), "var_get": items("$varget"), "subscribed": items("$subscribed")})
     return recs, occ_args, occ_vars
